@@ -331,8 +331,12 @@ func (fe functionExpr) matchingFunctions(prefix string, editRange hcl.Range) []l
 		if !strings.HasPrefix(name, prefix) {
 			continue
 		}
-		// Reject functions that have a non-convertible return type
-		if _, err := convert.Convert(cty.UnknownVal(f.ReturnType), fe.returnType); err != nil {
+		// Reject functions that have a non-convertible return type.
+		// Only the types matter here, so we look the conversion up
+		// instead of running it on an unknown value, which can panic
+		// inside of go-cty for some nested tuple types.
+		if !f.ReturnType.Equals(fe.returnType.WithoutOptionalAttributesDeep()) &&
+			convert.GetConversionUnsafe(f.ReturnType, fe.returnType) == nil {
 			continue
 		}
 
